@@ -8,6 +8,7 @@ def op_features(schema, doc_text):
     doc = parse(doc_text)
     frags = {d.name.value: d for d in doc.definitions if d.kind == "fragment_definition"}
     feats = set()
+    spread_rels = {}
 
     def tkind(t):
         if t is None:
@@ -80,6 +81,7 @@ def op_features(schema, doc_text):
                 rel = "same" if ct is ptype else ("sub" if is_abstract_type(ptype) and not is_abstract_type(ct) else
                                                   "super" if is_abstract_type(ct) and not is_abstract_type(ptype) else "other_abstract")
                 feats.add(f"spread_{rel}_{tkind(ct)}@{tkind(ptype)}")
+                spread_rels.setdefault(s.name.value, set()).add(rel)
                 if any(x.kind == "inline_fragment" for x in fd.selection_set.selections):
                     feats.add("spread_of_fragment_with_inline")
                 if any(x.kind == "fragment_spread" for x in fd.selection_set.selections):
@@ -123,4 +125,7 @@ def op_features(schema, doc_text):
             ct = schema.get_type(d.type_condition.name.value)
             feats.add(f"fragment_on_{tkind(ct)}")
             sel(d.selection_set, ct, ct, False)
+    for fname, rels in spread_rels.items():
+        if "same" in rels and len(rels) > 1:
+            feats.add("fragment_same_and_other_type_spread")
     return feats
